@@ -506,6 +506,10 @@ func runSupervisor(args []string) int {
 	for n, v := range agg.Counters {
 		counters[n] = v
 	}
+	if nrace > 0 {
+		counters["race_reports"] += 0 // make the (hopefully zero) number of race detector reports explicit
+		cov["race_detector_reports"] = counters["race_reports"]
+	}
 	cov["observed"] = counters
 	distinct := map[string]int{}
 	for n, m := range agg.Sets {
